@@ -455,7 +455,12 @@ int main(void)
             memset(&sv, 0, sizeof(sv));
             for (i = 0; i < n && 4 + i < argc; i++)
                 string_vector_append(&sv, unhex(argv[4 + i]));
-            l = conf_register_string_list_sv(p, name, &sv);
+            /* both registration entry points: the vector form, and the NULL-terminated argument list for short lists */
+            static unsigned which;
+            if (n <= 3 && (which++ & 1))
+                l = conf_register_string_list(p, name, n > 0 ? sv.vec[0] : NULL, n > 1 ? sv.vec[1] : NULL, n > 2 ? sv.vec[2] : NULL, NULL);
+            else
+                l = conf_register_string_list_sv(p, name, &sv);
             l->base.hook = the_hook;
             string_vector_clear_int(&sv);
             free(name);
